@@ -3,6 +3,7 @@ package main
 import (
 	"fmt"
 	"strings"
+	"sync/atomic"
 	"time"
 
 	"verif/harness/internal/core"
@@ -115,7 +116,7 @@ func c18Statement(r *core.Rand, g *gen.StmtGen) (string, string) {
 }
 
 func checkC18(c *core.Ctx) []core.Floor {
-	c.Rule = "sessions in four states (no USE; after a failed USE; database selected; failed USE after a successful one) executing statements from type-confused families over tables with all four column types, NULLs in every nullable column and an empty table: AVG/COUNT over every type and over NULLs, ORDER BY over NULL-bearing columns, comparisons between every pair of types and with NULL-padded join sides, bare columns/literals as conditions, missing / ambiguous / duplicated columns and aliases, GROUP BY on other columns, INSERT with wrong arity / unknown / repeated columns / empty VALUES, UPDATE from a column, DDL and database statements, plus random statements from the C10 grammar over the same names. Monitor: recover() around Session.ExecQuery in a child process (a dead child names its statement); wall-clock watchdog only as inconclusive. Distinct = (session state, statement text); non-trivial = the statement parsed (it reached execution)."
+	c.Rule = "sessions in four states (no USE; after a failed USE; database selected; failed USE after a successful one) executing statements from type-confused families over tables with all four column types, NULLs in every nullable column and an empty table: AVG/COUNT over every type and over NULLs, ORDER BY over NULL-bearing columns, comparisons between every pair of types and with NULL-padded join sides, bare columns/literals as conditions, missing / ambiguous / duplicated columns and aliases, GROUP BY on other columns, INSERT with wrong arity / unknown / repeated columns / empty VALUES, UPDATE from a column, DDL and database statements, plus random statements from the C10 grammar over the same names. Monitor: recover() around Session.ExecQuery in a child process (a dead child names its statement); wall-clock watchdog only as inconclusive. One case in eleven runs against the REAL 100 ms flush goroutine instead: multi-row INSERT, UPDATE, DELETE, CREATE TABLE and SELECTs (valid and type-confused) on a cold or warm cache, each held open by a sleep of 2-3 timer periods at its first cache miss, its second page change or inside its log append, so that a flush request is pending while the statement goes on; a script that does not finish is run a second time on its own with a 120 s allowance, and only if it stops at the same statement again is that reported as a hang. Distinct = (session state, statement text); non-trivial = the statement parsed (it reached execution)."
 	c.Assume = []string{"any result or error value is acceptable; only panics, process death and hangs are judged"}
 	drv := mustDriver(c, false)
 	n := 600
@@ -123,7 +124,8 @@ func checkC18(c *core.Ctx) []core.Floor {
 		n = 6000
 	}
 	core.ParallelFor(n, c.Workers, func(i int) { runC18(c, drv, i) })
-	fl := []core.Floor{{Key: "statements", Min: 5000}, {Key: "outcome_ok", Min: 500}, {Key: "outcome_error", Min: 1000}}
+	core.ParallelFor(n/10, c.Workers, func(i int) { runC18Ticker(c, drv, i) })
+	fl := []core.Floor{{Key: "statements", Min: 5000}, {Key: "outcome_ok", Min: 500}, {Key: "outcome_error", Min: 1000}, {Key: "ticker_statements_held_open_across_a_tick", Min: 100}}
 	for _, st := range []string{"no_use", "failed_use", "selected", "failed_use_after_use"} {
 		fl = append(fl, core.Floor{Key: "state_" + st, Min: 100})
 	}
@@ -230,4 +232,134 @@ func runC18(c *core.Ctx, drv string, idx int) {
 		}
 	}
 	c.Sample(4, map[string]interface{}{"session_state": state, "statements": history(first + 5)})
+}
+
+// runC18Ticker: statements against the real flush goroutine, each held open
+// across timer ticks at one of three points. Whatever the statement and the
+// flusher do to each other, the statement has to return.
+var c18HangsConfirmed int32
+
+func runC18Ticker(c *core.Ctx, drv string, idx int) {
+	if atomic.LoadInt32(&c18HangsConfirmed) >= 2 {
+		return // two witnesses are enough; every further one costs minutes
+	}
+	dir := c.CaseDir("c18t")
+	defer removeAll(dir)
+	r := core.NewRand(core.SubSeed(c.Seed, "C18T", idx))
+	var s script
+	s.cfg(false, 0) // timer on
+	s.k("init")
+	s.add(proto.Op{K: "c13setup", S: "race"}) // handlers that only sleep
+	s.sql("CREATE DATABASE d1")
+	s.sql("CREATE DATABASE d2")
+	s.sql("USE d1")
+	s.sql("CREATE TABLE t1 (i INT, b BIGINT, s VARCHAR(20), f BOOLEAN)")
+	s.sql("CREATE TABLE t2 (i INT, b BIGINT, s VARCHAR(20), f BOOLEAN)")
+	rows := func(from, n int) string {
+		var p []string
+		for k := 0; k < n; k++ {
+			p = append(p, fmt.Sprintf("(%d, %d, 'r%d', %v)", from+k, int64(from+k)<<33, (from+k)%7, (from+k)%2 == 0))
+		}
+		return strings.Join(p, ", ")
+	}
+	s.sql("INSERT INTO t1 VALUES " + rows(0, r.Range(5, 40)))
+	s.sql("INSERT INTO t2 VALUES " + rows(0, r.Range(1, 12)))
+	setup := len(s.ops)
+	type held struct {
+		op         int
+		kind, park string
+	}
+	var hs []held
+	next := 1000
+	for k := 0; k < 8; k++ {
+		if r.Chance(2, 3) {
+			s.sql("USE d2") // cold cache on return
+			s.sql("USE d1")
+		}
+		var q, kind string
+		switch r.Intn(9) {
+		case 0, 1:
+			n := r.Range(2, 60)
+			q, kind = "INSERT INTO t1 VALUES "+rows(next, n), "insert_multi"
+			next += n
+		case 2:
+			q, kind = fmt.Sprintf("UPDATE t1 SET s = 'u%d' WHERE i >= %d", k, r.Intn(20)), "update"
+		case 3:
+			q, kind = fmt.Sprintf("DELETE FROM t1 WHERE i < %d", r.Intn(6)), "delete"
+		case 4:
+			q, kind = "SELECT * FROM t1 JOIN t2 ON t1.i = t2.i", "join"
+		case 5:
+			q, kind = fmt.Sprintf("CREATE TABLE n%d_%d (k INT, v VARCHAR(9))", idx, k), "create"
+		case 6:
+			q, kind = "INSERT INTO t1 VALUES "+rows(next, 3)+", (1, 2, 3, 4)", "insert_invalid_row" // refused as a whole
+		case 7:
+			q, kind = "UPDATE t1 SET i = 'x' WHERE i >= 0", "update_type_error"
+		default:
+			q, kind = "SELECT s, COUNT(*) FROM t1 GROUP BY s ORDER BY s", "select"
+		}
+		park := []string{"miss", "dirty2", "wal"}[r.Intn(3)]
+		op := s.add(proto.Op{K: "c13stmt", SQL: proto.Text(q), S: park, N: r.Range(220, 320)})
+		hs = append(hs, held{op, kind, park})
+	}
+	s.k("close")
+	out := core.RunScript(drv, dir, s.ops, 45*time.Second)
+	for k := 0; k < setup && k < len(out.Res); k++ {
+		if out.Res[k].Failed() {
+			c.Inconclusive("setup", "C18 ticker setup failed: "+out.Res[k].Err+out.Res[k].Panic)
+			return
+		}
+	}
+	describe := func(upto int) []string {
+		var h []string
+		for k := 0; k <= upto && k < len(s.ops); k++ {
+			if s.ops[k].SQL != "" {
+				h = append(h, clip(string(s.ops[k].SQL), 160))
+			}
+		}
+		return h
+	}
+	for _, h := range hs {
+		if h.op >= len(out.Res) {
+			break
+		}
+		res := &out.Res[h.op]
+		c.Count("statements", 1)
+		c.Count("ticker_statements", 1)
+		if res.Count == 1 {
+			c.Count("ticker_statements_held_open_across_a_tick", 1)
+			c.Count("ticker_held_"+h.kind+"_at_"+h.park, 1)
+		}
+		c.Eval(fmt.Sprintf("ticker/%d/%d", idx, h.op), res.Count == 1)
+		if res.Panic != "" {
+			c.Violation("C18:panic:"+res.Frame, fmt.Sprintf("[real flush timer, statement held open at %s] statement panicked: %s\n%s", h.park, res.Panic, clip(string(s.ops[h.op].SQL), 300)), map[string]interface{}{"statements": describe(h.op), "held_open_at": h.park, "stack": clip(res.Stack, 1500)})
+		}
+	}
+	if !out.Died {
+		return
+	}
+	at := out.LastBeg
+	q := ""
+	if at >= 0 && at < len(s.ops) {
+		q = clip(string(s.ops[at].SQL), 300)
+	}
+	if !out.TimedOut {
+		c.Violation("C18:process-died:"+errClass(core.FatalTail(out.Stderr)), fmt.Sprintf("[real flush timer] the process died executing: %s\n%s", q, core.FatalTail(out.Stderr)), map[string]interface{}{"statements": describe(at)})
+		return
+	}
+	// did not finish: once more, alone, with a generous allowance
+	dir2 := c.CaseDir("c18t2")
+	defer removeAll(dir2)
+	out2 := core.RunScript(drv, dir2, s.ops, 120*time.Second)
+	if out2.Died && out2.TimedOut && out2.LastBeg == at {
+		atomic.AddInt32(&c18HangsConfirmed, 1)
+		kind, park := "other", ""
+		for _, h := range hs {
+			if h.op == at {
+				kind, park = h.kind, h.park
+			}
+		}
+		c.Violation("C18:hang:"+kind, fmt.Sprintf("[real flush timer] statement never returned (twice, the second time with 120 s for a script that takes about 4 s); it was held open by a sleep at %q while the flush timer fired: %s", park, q), map[string]interface{}{"statements": describe(at), "held_open_at": park, "how": "timer on; handlers only sleep on the session goroutine"})
+		return
+	}
+	c.Inconclusive("watchdog", "C18 ticker session exceeded the wall-clock watchdog once, not when repeated: "+q)
 }
